@@ -230,6 +230,14 @@ func init() {
 			for i := 0; i < npts/3; i++ {
 				rem = append(rem, 1+c.rng.Intn(npts))
 			}
+			if t%6 == 5 { // a tree that was filled and then emptied completely (the nodes stay behind, without values)
+				pts = pts[:3+c.rng.Intn(6)]
+				npts = len(pts)
+				rem = rem[:0]
+				for i := 1; i <= npts; i++ {
+					rem = append(rem, i)
+				}
+			}
 			sort.Ints(rem)
 			setCurrent("quadtree(concurrent)", pts)
 			q, _, ok := qtBuild(c, shard, 0, 1024, pts, rem)
